@@ -103,9 +103,8 @@ struct Run {
 
 fn scratch() -> PathBuf {
     let base = if Path::new("/dev/shm").is_dir() { PathBuf::from("/dev/shm") } else { std::env::temp_dir() };
-    let p = base.join(format!("drv_multilayer.{}", std::process::id()));
-    let _ = std::fs::create_dir_all(&p);
-    p
+    // created once in main, removed at exit (a thread abandoned after a hang must not bring it back)
+    base.join(format!("drv_multilayer.{}", std::process::id()))
 }
 
 fn new_run(prog: &Value) -> Run {
@@ -455,6 +454,7 @@ fn run_all(programs: Vec<Value>, out: &mut Out, timeout: Duration, max_hangs: u6
 fn main() {
     quiet_panics();
     check_concretisation();
+    std::fs::create_dir_all(scratch()).expect("create scratch directory");
     let args: Vec<String> = std::env::args().collect();
     let out_path = arg(&args, "--out").expect("--out <file>");
     let timeout = Duration::from_millis(arg_u64(&args, "--timeout-ms", 5000));
